@@ -218,7 +218,20 @@ def rule_static_dynamic(ctx, models):
                     if "groups['%s']" % group in recv or 'groups["%s"]' % group in recv:
                         if src(kw.get("src", ast.Constant(None))) in ("'u'", '"u"') and src(kw.get("value", ast.Constant(None))) == "0" \
                                 and src(kw.get("attr", ast.Constant("v"))) in ("'v'", '"v"'):
-                            ok = True
+                            # sibling agreement: only ONLINE dynamic devices take over; the idx list must be filtered by own status
+                            idx_e = kw.get("idx")
+                            masked = False
+                            if isinstance(idx_e, ast.Name):
+                                for st_ in ast.walk(tree):
+                                    if isinstance(st_, ast.Assign) and dotted(st_.targets[0]) == idx_e.id and "self.u.v" in src(st_.value):
+                                        masked = True
+                            elif idx_e is not None and "self.u.v" in src(idx_e):
+                                masked = True
+                            if masked:
+                                ok = True
+                            else:
+                                detail = ("v_numeric switches off the static device of EVERY linked dynamic device (idx=%s), including offline "
+                                          "ones (u=0): the injection the power flow relied on disappears" % src(idx_e))
         ctx.check(ok, "C05.static-dynamic", name, "switches the replaced %s device off (u := 0) in v_numeric" % group,
                   "takes over %s of a %s device but never switches it off: the injection would be counted twice; %s" % (
                       [e[2] for e in ext], group, detail), w)
